@@ -34,7 +34,8 @@ OtherBackOK == (IsCirc /\ Has("other") /\ "back" \in DOMAIN Rec.other) =>
     /\ Rec.other.back = Rec.other.ins
     /\ \A j \in 1..Len(Rec.other.ins) : Dec(Rec.other.bwd[j]) = Backward(tail, Dec(Rec.other.ins[j]))
 \* rank of a state is untouched by unitary circuits
-RankOK == (IsCirc \/ Rec.op = "circuit_rt" /\ ~Has("exc")) =>
+IsRT == Rec.op = "circuit_rt" /\ ~Has("exc")
+RankOK == (IsCirc \/ IsRT) =>
     \A p \in 1..Len(Rec.probes) : LET pr == Rec.probes[p] IN
         ("r0" \in DOMAIN pr) => \A f \in {"r_fwd", "r_back", "r_bwd"} : (f \in DOMAIN pr) => pr[f] = pr.r0
 \* C10: backward = inverses in reverse order; backward after forward and forward after backward restore
@@ -44,7 +45,6 @@ BackwardOK == IsCirc =>
         ("bwd" \in DOMAIN pr) => Len(pr.bwd) = Len(pr.ins) /\ \A j \in 1..Len(pr.ins) : Dec(pr.bwd[j]) = Backward(Prog, Dec(pr.ins[j]))
 \* (also records "circuit_rt": circuits whose compiled maps are documented to be out of date -- both halves compiled,
 \* then composed, not compiled again -- where only the round trip is promised, not what forward does)
-IsRT == Rec.op = "circuit_rt" /\ ~Has("exc")
 RoundTripOK == (IsCirc \/ IsRT) =>
     \A p \in 1..Len(Rec.probes) : LET pr == Rec.probes[p] IN
         /\ ("back" \in DOMAIN pr) => pr.back = pr.ins          \* backward(forward(x)) = x
